@@ -186,19 +186,19 @@ class WeakForms(_Simu):
         if results is None:
             return
 
+        # what an iteration holds depends on the algorithm selected when it was saved
+        # (a steady state followed by a transient analysis): missing rates are zero
+        u = results["u"]
+        v = results.get("v", np.zeros_like(u))
+        a = results.get("a", np.zeros_like(u))
+
         if self.algo == AlgoType.elliptic:
-            u = results["u"]
             self._Set_solutions(self.problemType, u)
 
         elif self.algo == AlgoType.parabolic:
-            u = results["u"]
-            v = results["v"]
             self._Set_solutions(self.problemType, u, v)
 
         elif self.algo in AlgoType.Get_Hyperbolic_Types():
-            u = results["u"]
-            v = results["v"]
-            a = results["a"]
             self._Set_solutions(self.problemType, u, v, a)
 
         else:
